@@ -46,6 +46,58 @@ theorem C09_examples_are_warnings (J : Judges) (O : Oracles) (inn : String) (s :
   obtain ⟨r, hr, hm⟩ := walk_mem J O .exmp inn s path vis
   exact ⟨r, hr, hm m⟩
 
+/-! ### from the walker to the stages -/
+
+/-- **Definitions**: with the repaired traversal the stage reports, for the definitions, exactly what the
+    specification asks for some definition walked under `definitions.<name>` — for any number of
+    definitions, any names, the visited set shared across them notwithstanding -/
+theorem C09_definitions (J : Judges) (O : Oracles) (w : Which) (defs : List (String × Schema)) (m : Msg) :
+    m ∈ reportedOf w (defsStage DCfg.repaired J w O defs {} [])
+      ↔ ∃ d ∈ defs, Exp J O w "body" d.2 ("definitions." ++ d.1) m := by
+  rw [defsStage_mem]
+  simp [not_mem_reportedOf_empty]
+
+theorem hasEW_of_reported (w : Which) (r : Res) (m : Msg) (h : m ∈ reportedOf w r) : hasErrorsOrWarnings (some r) = true := by
+  cases w
+  · simp only [reportedOf] at h
+    simp only [hasErrorsOrWarnings, Bool.or_eq_true, Bool.not_eq_true', List.isEmpty_eq_false_iff]
+    exact Or.inl (List.ne_nil_of_mem h)
+  · simp only [reportedOf] at h
+    simp only [hasErrorsOrWarnings, Bool.or_eq_true, Bool.not_eq_true', List.isEmpty_eq_false_iff]
+    exact Or.inr (List.ne_nil_of_mem h)
+
+/-- **Body parameters, completeness**: whatever the specification asks for the parameter's schema is reported -/
+theorem C09_body_param_reported (J : Judges) (O : Oracles) (w : Which) (res : Res) (p : Param) (s : Schema) (hs : p.schema = some s)
+    (m : Msg) (h : Exp J O w p.loc s p.name m) : m ∈ reportedOf w (paramSchema DCfg.repaired J w O res p) := by
+  rw [paramSchema_mem J O w res p s hs]
+  refine Or.inr ⟨?_, Or.inr h⟩
+  exact hasEW_of_reported w _ m (((walked_spec J O w p.loc s p.name []).2 m).mpr h)
+
+/-- **Body parameters, soundness**: nothing else is reported but the wrapper message -/
+theorem C09_body_param_only (J : Judges) (O : Oracles) (w : Which) (p : Param) (s : Schema) (hs : p.schema = some s)
+    (m : Msg) (h : m ∈ reportedOf w (paramSchema DCfg.repaired J w O {} p)) :
+    m = mkMsg (kindName w "Param") [p.name, p.loc] ∨ Exp J O w p.loc s p.name m := by
+  rw [paramSchema_mem J O w {} p s hs] at h
+  rcases h with h | ⟨_, h⟩
+  · exact absurd h (not_mem_reportedOf_empty w m)
+  · exact h
+
+/-- **Response schemas**, both directions -/
+theorem C09_response_reported (J : Judges) (O : Oracles) (w : Which) (o : Op) (r : Response) (res : Res) (s : Schema)
+    (hs : r.schema = some s) (m : Msg) (h : Exp J O w "response" s r.code m) :
+    m ∈ reportedOf w (respSchema DCfg.repaired J w O o r res) := by
+  rw [respSchema_mem J O w o r res s hs]
+  refine Or.inr ⟨?_, Or.inr h⟩
+  exact hasEW_of_reported w _ m (((walked_spec J O w "response" s r.code []).2 m).mpr h)
+
+theorem C09_response_only (J : Judges) (O : Oracles) (w : Which) (o : Op) (r : Response) (s : Schema)
+    (hs : r.schema = some s) (m : Msg) (h : m ∈ reportedOf w (respSchema DCfg.repaired J w O o r {})) :
+    m = mkMsg (kindName w "Response") [o.id, responseName r] ∨ Exp J O w "response" s r.code m := by
+  rw [respSchema_mem J O w o r {} s hs] at h
+  rcases h with h | ⟨_, h⟩
+  · exact absurd h (not_mem_reportedOf_empty w m)
+  · exact h
+
 /-! ### witnesses -/
 
 def O0 : Oracles :=
